@@ -7374,6 +7374,248 @@ let is_test = function
 let outside ts =
   concat (map tok_raw (filter (fun t -> negb (is_test t)) ts))
 
+(** val needs_u_escape : n -> bool **)
+
+let needs_u_escape c =
+  (||)
+    ((||)
+      ((||)
+        ((||) (N.ltb c (Npos (XO (XO (XO (XO (XO XH)))))))
+          ((&&) (N.leb (Npos (XI (XI (XI (XI (XI (XI XH))))))) c)
+            (N.leb c (Npos (XI (XI (XI (XI (XI (XO (XO XH)))))))))))
+        (N.eqb c (Npos (XO (XO (XO (XI (XO (XI (XO (XO (XO (XO (XO (XO (XO
+          XH))))))))))))))))
+      (N.eqb c (Npos (XI (XO (XO (XI (XO (XI (XO (XO (XO (XO (XO (XO (XO
+        XH))))))))))))))))
+    (N.eqb c (Npos (XI (XI (XI (XI (XI (XI (XI (XI (XO (XI (XI (XI (XI (XI
+      (XI XH)))))))))))))))))
+
+(** val hex4 : n -> n list **)
+
+let hex4 c =
+  (hexd
+    (N.div c (Npos (XO (XO (XO (XO (XO (XO (XO (XO (XO (XO (XO (XO
+      XH))))))))))))))) :: ((hexd
+                              (N.modulo
+                                (N.div c (Npos (XO (XO (XO (XO (XO (XO (XO
+                                  (XO XH)))))))))) (Npos (XO (XO (XO (XO
+                                XH))))))) :: ((hexd
+                                                (N.modulo
+                                                  (N.div c (Npos (XO (XO (XO
+                                                    (XO XH)))))) (Npos (XO
+                                                  (XO (XO (XO XH))))))) :: (
+    (hexd (N.modulo c (Npos (XO (XO (XO (XO XH))))))) :: [])))
+
+(** val quote_char : n -> n list **)
+
+let quote_char c =
+  if N.eqb c (Npos (XO (XI (XO (XO (XO XH))))))
+  then (Npos (XO (XO (XI (XI (XI (XO XH))))))) :: ((Npos (XO (XI (XO (XO (XO
+         XH)))))) :: [])
+  else if N.eqb c (Npos (XO (XO (XI (XI (XI (XO XH)))))))
+       then (Npos (XO (XO (XI (XI (XI (XO XH))))))) :: ((Npos (XO (XO (XI (XI
+              (XI (XO XH))))))) :: [])
+       else if needs_u_escape c
+            then app ((Npos (XO (XO (XI (XI (XI (XO XH))))))) :: ((Npos (XI
+                   (XO (XI (XO (XI (XI XH))))))) :: [])) (hex4 c)
+            else c :: []
+
+(** val yaml_quoted : n list -> n list **)
+
+let yaml_quoted t =
+  app ((Npos (XO (XI (XO (XO (XO XH)))))) :: [])
+    (app (flat_map quote_char t) ((Npos (XO (XI (XO (XO (XO XH)))))) :: []))
+
+(** val hexval : n -> n option **)
+
+let hexval c =
+  if (&&) (N.leb (Npos (XO (XO (XO (XO (XI XH)))))) c)
+       (N.leb c (Npos (XI (XO (XO (XI (XI XH)))))))
+  then Some (N.sub c (Npos (XO (XO (XO (XO (XI XH)))))))
+  else if (&&) (N.leb (Npos (XI (XO (XO (XO (XO (XI XH))))))) c)
+            (N.leb c (Npos (XO (XI (XI (XO (XO (XI XH))))))))
+       then Some (N.sub c (Npos (XI (XI (XI (XO (XI (XO XH))))))))
+       else if (&&) (N.leb (Npos (XI (XO (XO (XO (XO (XO XH))))))) c)
+                 (N.leb c (Npos (XO (XI (XI (XO (XO (XO XH))))))))
+            then Some (N.sub c (Npos (XI (XI (XI (XO (XI XH)))))))
+            else None
+
+type qst =
+| QN
+| QB
+| QU of nat * n
+
+(** val rq : qst -> n list -> n list -> (n list * n list) option **)
+
+let rec rq st out_rev = function
+| [] -> None
+| c :: r ->
+  (match st with
+   | QN ->
+     if N.eqb c (Npos (XO (XI (XO (XO (XO XH))))))
+     then Some ((rev out_rev), r)
+     else if N.eqb c (Npos (XO (XO (XI (XI (XI (XO XH)))))))
+          then rq QB out_rev r
+          else rq QN (c :: out_rev) r
+   | QB ->
+     if N.eqb c (Npos (XO (XI (XO (XO (XO XH))))))
+     then rq QN ((Npos (XO (XI (XO (XO (XO XH)))))) :: out_rev) r
+     else if N.eqb c (Npos (XO (XO (XI (XI (XI (XO XH)))))))
+          then rq QN ((Npos (XO (XO (XI (XI (XI (XO XH))))))) :: out_rev) r
+          else if N.eqb c (Npos (XI (XO (XI (XO (XI (XI XH)))))))
+               then rq (QU (O, N0)) out_rev r
+               else None
+   | QU (k, acc) ->
+     (match hexval c with
+      | Some v ->
+        if eqb k (S (S (S O)))
+        then rq QN
+               ((N.add (N.mul acc (Npos (XO (XO (XO (XO XH)))))) v) :: out_rev)
+               r
+        else rq (QU ((S k),
+               (N.add (N.mul acc (Npos (XO (XO (XO (XO XH)))))) v))) out_rev r
+      | None -> None))
+
+(** val yaml_unquote : n list -> n list option **)
+
+let yaml_unquote = function
+| [] -> None
+| n0 :: body ->
+  (match n0 with
+   | N0 -> None
+   | Npos p ->
+     (match p with
+      | XO p0 ->
+        (match p0 with
+         | XI p1 ->
+           (match p1 with
+            | XO p2 ->
+              (match p2 with
+               | XO p3 ->
+                 (match p3 with
+                  | XO p4 ->
+                    (match p4 with
+                     | XH ->
+                       (match rq QN [] body with
+                        | Some p5 ->
+                          let (t, l) = p5 in
+                          (match l with
+                           | [] -> Some t
+                           | _ :: _ -> None)
+                        | None -> None)
+                     | _ -> None)
+                  | _ -> None)
+               | _ -> None)
+            | _ -> None)
+         | _ -> None)
+      | _ -> None))
+
+(** val is_alpha : n -> bool **)
+
+let is_alpha c =
+  (||)
+    ((&&) (N.leb (Npos (XI (XO (XO (XO (XO (XO XH))))))) c)
+      (N.leb c (Npos (XO (XI (XO (XI (XI (XO XH)))))))))
+    ((&&) (N.leb (Npos (XI (XO (XO (XO (XO (XI XH))))))) c)
+      (N.leb c (Npos (XO (XI (XO (XI (XI (XI XH)))))))))
+
+(** val is_digit_c : n -> bool **)
+
+let is_digit_c c =
+  (&&) (N.leb (Npos (XO (XO (XO (XO (XI XH)))))) c)
+    (N.leb c (Npos (XI (XO (XO (XI (XI XH)))))))
+
+(** val plain_first : n -> bool **)
+
+let plain_first c =
+  (||)
+    ((||) ((||) (is_alpha c) (N.eqb c (Npos (XI (XI (XI (XI (XO XH))))))))
+      (N.eqb c (Npos (XO (XI (XI (XI (XO XH))))))))
+    (N.eqb c (Npos (XI (XI (XI (XI (XI (XO XH))))))))
+
+(** val plain_char : n -> bool **)
+
+let plain_char c =
+  (||)
+    ((||)
+      ((||)
+        ((||) ((||) (is_alpha c) (is_digit_c c))
+          (N.eqb c (Npos (XI (XI (XI (XI (XO XH))))))))
+        (N.eqb c (Npos (XO (XI (XI (XI (XO XH))))))))
+      (N.eqb c (Npos (XI (XI (XI (XI (XI (XO XH)))))))))
+    (N.eqb c (Npos (XI (XO (XI (XI (XO XH)))))))
+
+(** val lower : n -> n **)
+
+let lower c =
+  if (&&) (N.leb (Npos (XI (XO (XO (XO (XO (XO XH))))))) c)
+       (N.leb c (Npos (XO (XI (XO (XI (XI (XO XH))))))))
+  then N.add c (Npos (XO (XO (XO (XO (XO XH))))))
+  else c
+
+(** val kEYWORDS : n list list **)
+
+let kEYWORDS =
+  ((Npos (XO (XO (XI (XO (XI (XI XH))))))) :: ((Npos (XO (XI (XO (XO (XI (XI
+    XH))))))) :: ((Npos (XI (XO (XI (XO (XI (XI XH))))))) :: ((Npos (XI (XO
+    (XI (XO (XO (XI XH))))))) :: [])))) :: (((Npos (XO (XI (XI (XO (XO (XI
+    XH))))))) :: ((Npos (XI (XO (XO (XO (XO (XI XH))))))) :: ((Npos (XO (XO
+    (XI (XI (XO (XI XH))))))) :: ((Npos (XI (XI (XO (XO (XI (XI
+    XH))))))) :: ((Npos (XI (XO (XI (XO (XO (XI
+    XH))))))) :: []))))) :: (((Npos (XO (XI (XI (XI (XO (XI
+    XH))))))) :: ((Npos (XI (XO (XI (XO (XI (XI XH))))))) :: ((Npos (XO (XO
+    (XI (XI (XO (XI XH))))))) :: ((Npos (XO (XO (XI (XI (XO (XI
+    XH))))))) :: [])))) :: (((Npos (XI (XO (XO (XI (XI (XI
+    XH))))))) :: ((Npos (XI (XO (XI (XO (XO (XI XH))))))) :: ((Npos (XI (XI
+    (XO (XO (XI (XI XH))))))) :: []))) :: (((Npos (XO (XI (XI (XI (XO (XI
+    XH))))))) :: ((Npos (XI (XI (XI (XI (XO (XI XH))))))) :: [])) :: (((Npos
+    (XI (XI (XI (XI (XO (XI XH))))))) :: ((Npos (XO (XI (XI (XI (XO (XI
+    XH))))))) :: [])) :: (((Npos (XI (XI (XI (XI (XO (XI XH))))))) :: ((Npos
+    (XO (XI (XI (XO (XO (XI XH))))))) :: ((Npos (XO (XI (XI (XO (XO (XI
+    XH))))))) :: []))) :: (((Npos (XI (XO (XO (XI (XI (XI
+    XH))))))) :: []) :: (((Npos (XO (XI (XI (XI (XO (XI
+    XH))))))) :: []) :: []))))))))
+
+(** val is_plain : n list -> bool **)
+
+let is_plain t = match t with
+| [] -> false
+| c :: _ ->
+  (&&) ((&&) (plain_first c) (forallb plain_char t))
+    (negb (existsb (list_eqb (map lower t)) kEYWORDS))
+
+(** val yaml_scalar : n list -> n list **)
+
+let yaml_scalar t =
+  if is_plain t then t else yaml_quoted t
+
+(** val read_scalar : n list -> n list option **)
+
+let read_scalar s = match s with
+| [] -> Some s
+| n0 :: _ ->
+  (match n0 with
+   | N0 -> Some s
+   | Npos p ->
+     (match p with
+      | XO p0 ->
+        (match p0 with
+         | XI p1 ->
+           (match p1 with
+            | XO p2 ->
+              (match p2 with
+               | XO p3 ->
+                 (match p3 with
+                  | XO p4 ->
+                    (match p4 with
+                     | XH -> yaml_unquote s
+                     | _ -> Some s)
+                  | _ -> Some s)
+               | _ -> Some s)
+            | _ -> Some s)
+         | _ -> Some s)
+      | _ -> Some s))
+
 (** val make_exp : bool -> bool -> (nat -> bool) -> nat exp **)
 
 let make_exp o m f =
